@@ -38,11 +38,11 @@ TEXT = {
     "C05": "two-sided books of the per-call semaphore for every history (equality while the consumer lives, no lost wake-up) => never more than num_concurrent tasks of a call, and work conservation: a live consumer waiting on its own semaphore with no wake-up on its way means all num_concurrent slots are held by tasks of the call; request accounting for every history (in order, lazy, one element in hand at most); at every idle point a live consumer suspended on its own semaphore has all num_concurrent slots held (the premise 'no wake-up on its way' follows from the ready queue being empty); at quiescence a never-cancelled request has pulled its whole iterable (partial: the last element in hand); the quiescence theorem also with gather_and_close in the history (nobody calls unlock()); every task of a map-style request was called with one element in its request's star variant, and element indices increase strictly with task ids within a request (no element twice, iteration order kept) - invariant over all histories",
     "C06": "decision logic stated outright: all-or-nothing with full state equality, classification, exact frame and delivery; a worker that catches its CancelledError and goes on is a running task like any other (next cancel accepted and delivered)",
     "C07": "what cancel_group/cancel_all do (frame, forgotten name), what a spawner does at its next step for each placement of the cancellation, and the invariant over all histories that a spawner cancelled while suspended or not yet begun has created no task and pulled no element since and is over or still doomed (nothing un-cancels it); cancel_group / cancel_all record that cancellation for every live spawner concerned, and after every continuation of the history the call's counters and task count are unchanged (step relation Mono: every step only moves forward)",
-    "C08": "step-level theorems of the stages of gather_and_close (collecting gather waits for the last child, closing step, until_closed); closed stays closed after every continuation of the history (so every later request is rejected); for every history the count of every gather is exact (world-level invariant over the ready queue), so a gather completes only when all its child tasks have finished; the count is an equality (no callback slot is ever dropped), hence at quiescence every flush() / gather_and_close() call has returned and until_closed() waits only for a pool that is not closed; for every history in which nobody calls unlock(): while a gather_and_close waits the pool is locked, its first gather (collecting) has every spawner filed as running among its children and every other live spawner is doomed, every spawner child of a completed collecting gather has finished (world-level counting invariant), from the second gather on no task is created any more and that gather has every task filed as running or cancelled among its children at every moment of the wait, and when it completes every task of the pool has handed back its slot: the closing step drops nothing; when the closing step runs every task of the pool has finished, callbacks included (a task inside its end callback stays filed as ended and is among the children), and every request that was never cancelled is complete; at quiescence every flush / gather_and_close / until_closed call has returned; a pool is closed exactly when a gather_and_close has returned normally (every history)",
+    "C08": "step-level theorems of the stages of gather_and_close (collecting gather waits for the last child, closing step, until_closed); closed stays closed after every continuation of the history (so every later request is rejected); for every history the count of every gather is exact (world-level invariant over the ready queue), so a gather completes only when all its child tasks have finished; the count is an equality (no callback slot is ever dropped), hence at quiescence every flush() / gather_and_close() call has returned and until_closed() waits only for a pool that is not closed; for every history in which nobody calls unlock(): while a gather_and_close waits the pool is locked, its first gather (collecting) has every spawner filed as running among its children and every other live spawner is doomed, every spawner child of a completed collecting gather has finished (world-level counting invariant), from the second gather on no task is created any more and that gather has every task filed as running or cancelled among its children at every moment of the wait, and when it completes every task of the pool has handed back its slot: the closing step drops nothing; when the closing step runs every task of the pool has finished, callbacks included (a task inside its end callback stays filed as ended and is among the children), and every request that was never cancelled is complete; at quiescence every flush / gather_and_close / until_closed call has returned; a pool is closed exactly when a gather_and_close has returned normally (every history); what a flush / gather_and_close raises is the outcome of a task or spawner of the pool (invariant over all histories), hence if no task or callback raised every call that has returned has returned normally, and in a pool nobody unlocks gather_and_close has then, at quiescence, closed the pool",
     "C09": "complete decision tables of the spawning calls, full state equality on rejection, lock/unlock algebra",
     "C10": "get_group_ids spec, freshness of generated names (pigeonhole; decimal rendering of naturals proved injective), membership of new tasks",
     "C11": "ids are list indices: new id = number of tasks created, never reused (after every continuation of a history a pool has at least as many tasks), pools independent, class-level indices distinct for every history",
-    "C12": "a failing worker takes the same ending path (slot released, filed as ended); collecting gathers cannot raise; reported exception is a child's; two-run noninterference: a future that raises instead of returning (worker's last await or a coroutine callback) changes nothing but the task's own record and log entries, for histories whose flush / gather_and_close collect exceptions; every finished task has released its slot also in histories with gather_and_close in which nobody calls unlock()",
+    "C12": "a failing worker takes the same ending path (slot released, filed as ended); collecting gathers cannot raise; reported exception is a child's; two-run noninterference: a future that raises instead of returning (worker's last await or a coroutine callback) changes nothing but the task's own record and log entries, for histories whose flush / gather_and_close collect exceptions; every finished task has released its slot also in histories with gather_and_close in which nobody calls unlock(); the exception a flush / gather_and_close call ends with is what a task or spawner of this pool ended with (invariant over all histories)",
     "C13": "flush never forgets a task that still holds its slot, for every history without gather_and_close and any number of overlapping flushes (FlushOK invariant); exact effect of flush's last step; collecting flush cannot raise; every flush() has returned at quiescence; neither flush nor gather_and_close forgets an unfinished task in any history in which nobody calls unlock(); a task inside its end callback stays filed as ended and flush forgets finished tasks only (sealed histories)",
     "C14": "stop(n) = cancel of the last min(n,running) ids newest first; never raises; others unaffected",
     "C15": "as-is semantics proved exactly + closed refutations of the three violated clauses (known findings R5), negative value rejected",
